@@ -841,7 +841,12 @@ func (db *DB) Open() (err error) {
 // and closes the database. If Done is set, closing it interrupts the shutdown
 // sync retry loop and cancels any in-flight sync attempt.
 func (db *DB) Close(ctx context.Context) (err error) {
-	db.cancel()
+	// Open replaces ctx/cancel under db.mu when the DB is reopened; read the
+	// current cancel function under the same lock.
+	db.mu.Lock()
+	cancel := db.cancel
+	db.mu.Unlock()
+	cancel()
 	db.wg.Wait()
 
 	// Acquire without honoring caller cancellation: the cleanup below
